@@ -3,7 +3,8 @@ C11 - model of `notation.SignOCI` (notation.go): option validation, reference ha
 (`orasRegistry.ParseReference`), `Repository.Resolve`, digest pinning,
 `addUserMetadataToDescriptor`, the signer call, `generateAnnotations`
 (`envelope.AnnotationX509ChainThumbprint`, `envelope.SigningTime`) and
-`Repository.PushSignature`, over *sequences* of calls against one repository.
+`Repository.PushSignature`, over *histories* against one long-lived repository value: signing calls
+interleaved with changes of what the tag names (tag moved to another artifact, tag deleted, tag recreated).
 
 Go maps are reference objects: the descriptor `Resolve` returns may carry the repository's own
 annotation map (oci.Store and memory.Store hand out their tag-resolver state). To make
@@ -73,7 +74,7 @@ def Heap.write (h : Heap) (r : MapRef) (k v : Text) : Heap :=
 
 /-! ### input -/
 
-/-- the artifact reference handed to `SignOCI` -/
+/-- the artifact reference handed to `SignOCI`; "<artifact>" is the digest of artifact `target` of the step -/
 inductive Ref
   | tag               -- "v1"                         (not a full reference: passed on unchanged)
   | fullTag           -- "reg.example/repo:v1"
@@ -81,15 +82,15 @@ inductive Ref
   | digest            -- "sha256:<artifact>"
   | fullDigest        -- "reg.example/repo@sha256:<artifact>"
   | fullTagDigest     -- "reg.example/repo:v1@sha256:<artifact>"  (tag dropped by ParseReference)
-  | otherDigest       -- "sha256:<another digest>"
-  | fullOtherDigest   -- "reg.example/repo@sha256:<another digest>"
+  | otherDigest       -- "sha256:<a digest of nothing in the repository>"
+  | fullOtherDigest   -- "reg.example/repo@sha256:<a digest of nothing in the repository>"
   | otherAlgDigest    -- "reg.example/repo@sha512:<digest of the same bytes>"
   | noRef             -- "reg.example/repo"           (valid reference without tag or digest)
   | bareRepo          -- "repo"                       (not a full reference; no such tag)
   | unknownTag        -- "reg.example/repo:missing"
   deriving DecidableEq, Repr, FromJson, ToJson
 
-/-- what `Repository.Resolve` is asked -/
+/-- what `Repository.Resolve` is asked (`digest`: the digest of the step's `target` artifact) -/
 inductive Arg | tag | digest | otherDigest | empty | unknown
   deriving DecidableEq, Repr, FromJson, ToJson
 
@@ -116,13 +117,13 @@ structure Art where
   mediaType : Text
   digest : Text
   size : Nat
-  ann : AnnMap            -- annotations the repository holds for the artifact (what resolving the tag shows)
+  ann : AnnMap            -- annotations the repository holds for the artifact (what a tag naming it shows)
   deriving DecidableEq, Repr, FromJson, ToJson
 
 structure Repo where
   aliased : Bool          -- Resolve hands out its own annotation map object (oci.Store, memory.Store), not a copy
   plainByDigest : Bool    -- resolving a digest yields the plain descriptor without annotations (oci.Store)
-  anyDigest : Bool        -- any well-formed digest resolves to the artifact (a registry that ignores the digest)
+  anyDigest : Bool        -- any well-formed digest resolves to artifact 0 (a registry that ignores the digest)
   push : PushKind
   deriving DecidableEq, Repr, FromJson, ToJson
 
@@ -133,19 +134,30 @@ structure SignerCfg where
   pluginAnn : AnnMap      -- the signer's PluginAnnotations() (empty: none / nil)
   deriving DecidableEq, Repr, FromJson, ToJson
 
-structure Call where
-  ref : Ref
-  md : AnnMap           -- SignOptions.UserMetadata
-  opts : Opts
+/-- one operation of a history on the one repository value -/
+inductive Op
+  | sign      -- notation.SignOCI / notation.Sign through the repository client
+  | tagTo     -- the tag is (re)created / moved: it names artifact `to` from now on
+  | untag     -- the tag is deleted
+  deriving DecidableEq, Repr, FromJson, ToJson
+
+structure Step where
+  op : Op
+  to : Nat              -- tagTo: the artifact the tag names afterwards
+  ref : Ref             -- sign
+  target : Nat          -- sign: the artifact whose digest a digest reference spells
+  md : AnnMap           -- sign: SignOptions.UserMetadata
+  opts : Opts           -- sign
   deriving DecidableEq, Repr, FromJson, ToJson
 
 structure Input where
   backend : String        -- which repository the harness concretised (mock, mem, oci, ociReopened); not used by the model
-  art : Art
+  arts : List Art         -- the artifacts in the repository
+  tag : Option Nat        -- the artifact the tag names at the start (none: no such tag)
   repo : Repo
   signer : SignerCfg
   pluginConfig : AnnMap   -- SignerSignOptions.PluginConfig, the same map for every call
-  calls : List Call
+  steps : List Step
   deriving Repr, FromJson, ToJson
 
 /-! ### observables -/
@@ -165,6 +177,7 @@ inductive Returned
   | panicked    -- the call panicked
   deriving DecidableEq, Repr, FromJson, ToJson
 
+/-- one per `sign` step -/
 structure CallObs where
   ok : Bool                      -- SignOCI returned no error
   resolveArg : Option Arg        -- what Resolve was asked (none: not called)
@@ -172,10 +185,10 @@ structure CallObs where
   subject : Option DescObs       -- the subject PushSignature received
   pushAnn : Option AnnMap        -- the annotations PushSignature received
   returned : Returned
-  repoViewSame : Bool            -- afterwards the repository resolves tag and digest exactly as before the first call
+  repoViewSame : Bool            -- the repository resolves the tag and every digest exactly as just before the call
   handedSame : Bool              -- every descriptor Resolve has handed out so far still has the contents it had then
   optsSame : Bool                -- UserMetadata (of every call) and PluginConfig maps have their original contents
-  sigCount : Nat                 -- signatures attached to the artifact afterwards
+  sigCounts : List Nat           -- signatures attached to each artifact afterwards
   deriving DecidableEq, Repr, FromJson, ToJson
 
 structure Obs where
@@ -198,37 +211,39 @@ def optsValid : Opts → Bool
   | .jws | .cose => true
   | _ => false
 
-/-- addresses fixed at set-up -/
-structure Env where
-  repoAnn : Nat      -- the repository's annotation map of the artifact
-  cfg : Nat          -- PluginConfig
-  metaBase : Nat     -- UserMetadata of call j lives at metaBase + j
-  deriving Repr
-
+/-- the world of a history: the heap, what the tag names now, the descriptors handed out, the signatures -/
 structure World where
   heap : Heap
+  tag : Option Nat
   handed : List (MapRef × AnnMap)   -- annotation maps of the descriptors Resolve handed out, with their contents then
-  sigCount : Nat
+  sigs : List Nat                   -- signatures attached to each artifact
   deriving Repr
 
-/-- set-up: cell 0 repository, 1 PluginConfig, 2+j UserMetadata of call j -/
-def env : Env := { repoAnn := 0, cfg := 1, metaBase := 2 }
-
-def initCells (i : Input) : List AnnMap := [i.art.ann, i.pluginConfig] ++ i.calls.map (·.md)
+/-- set-up: cell k = the repository's annotation map of artifact k, cell n = PluginConfig,
+cell n+1+j = UserMetadata of step j (n = number of artifacts) -/
+def initCells (i : Input) : List AnnMap := i.arts.map (·.ann) ++ [i.pluginConfig] ++ i.steps.map (·.md)
 
 def initWorld (i : Input) : World :=
-  { heap := { cells := initCells i }, handed := [], sigCount := 0 }
+  { heap := { cells := initCells i }, tag := i.tag, handed := [], sigs := i.arts.map (fun _ => 0) }
 
-/-- `Repository.Resolve`: `none` = error, otherwise the annotation map of the descriptor returned -/
-def resolve (r : Repo) (h : Heap) : Arg → Option (Heap × MapRef)
-  | .tag => some (handOut h)
-  | .digest => some (if r.plainByDigest then (h, none) else handOut h)
-  | .otherDigest => if r.anyDigest then some (if r.plainByDigest then (h, none) else handOut h) else none
+/-- hand out the descriptor of artifact `k` with its annotations: the repository's own map, or a copy -/
+def handOut (r : Repo) (h : Heap) (k : Nat) : Heap × MapRef :=
+  if r.aliased then (h, some k)
+  else let (h', a) := h.alloc (h.read (some k)); (h', some a)
+
+/-- `Repository.Resolve` *now*: `none` = error, otherwise the annotation map of the descriptor returned and
+the artifact it describes. The tag is looked up in the current world - nothing is remembered between calls. -/
+def resolve (r : Repo) (h : Heap) (tag : Option Nat) (target : Nat) : Arg → Option (Heap × MapRef × Nat)
+  | .tag =>
+    match tag with
+    | none => none
+    | some k => let (h', m) := handOut r h k; some (h', m, k)
+  | .digest => some (byDigest target)
+  | .otherDigest => if r.anyDigest then some (byDigest 0) else none
   | .empty | .unknown => none
 where
-  handOut (h : Heap) : Heap × MapRef :=
-    if r.aliased then (h, some env.repoAnn)
-    else let (h', a) := h.alloc (h.read (some env.repoAnn)); (h', some a)
+  byDigest (k : Nat) : Heap × MapRef × Nat :=
+    if r.plainByDigest then (h, none, k) else let (h', m) := handOut r h k; (h', m, k)
 
 /-- the loop of `addUserMetadataToDescriptor` (keys visited in sorted order; Go's order is random,
 which changes neither success nor - on success - the result: `Props.merge_order_irrelevant`) -/
@@ -278,45 +293,51 @@ def jsonArray : List Text → Text
   | t :: ts => ['['] ++ quote t ++ (ts.map (fun x => [','] ++ quote x)).flatten ++ [']']
 where quote (t : Text) : Text := ['"'] ++ t ++ ['"']
 
-/-- one step of the trace of a call -/
+/-- `sigs[k] += 1` -/
+def bump : Nat → List Nat → List Nat
+  | _, [] => []
+  | 0, x :: r => (x + 1) :: r
+  | k + 1, x :: r => x :: bump k r
+
+/-- what a call showed: artifact index + annotation contents for the descriptors -/
 structure Trace where
   ok : Bool := false
   resolveArg : Option Arg := none
-  signed : Option AnnMap := none
-  subject : Option AnnMap := none
+  signed : Option (Nat × AnnMap) := none
+  subject : Option (Nat × AnnMap) := none
   pushAnn : Option AnnMap := none
   returnedResolved : Bool := false
   deriving Repr
 
-/-- `generateAnnotations` + `PushSignature` (after the signer has answered) -/
-def annotateAndPush (i : Input) (w : World) (t : Trace) (resolved : MapRef) : World × Trace :=
+/-- `generateAnnotations` + `PushSignature` (after the signer has answered); `k` = the resolved artifact -/
+def annotateAndPush (i : Input) (w : World) (t : Trace) (resolved : MapRef) (k : Nat) : World × Trace :=
   match i.signer.kind with
   | .fails => (w, t)
   | .nilInfo => (w, t)
-  | k =>
+  | kind =>
     -- the map `PluginAnnotations()` returns is made by the signer during `Sign` (PluginSigner stores the
     -- plugin's response); when it is nil, `generateAnnotations` makes one: a new cell either way
     let (h1, a) := w.heap.alloc i.signer.pluginAnn
     let ann : MapRef := some a
     let h2 := h1.write ann Facts.c11ThumbprintKey (jsonArray i.signer.thumbs)
-    if k == .noTime then ({ w with heap := h2 }, t)
+    if kind == .noTime then ({ w with heap := h2 }, t)
     else
       let h3 := h2.write ann Facts.c11CreatedKey (rfc3339 i.signer.time)
-      let t' := { t with subject := some (h3.read resolved), pushAnn := some (h3.read ann) }
+      let t' := { t with subject := some (k, h3.read resolved), pushAnn := some (h3.read ann) }
       match i.repo.push with
       | .fails => ({ w with heap := h3 }, t')
-      | .indexDeleteFails => ({ w with heap := h3, sigCount := w.sigCount + 1 }, { t' with returnedResolved := true })
-      | .ok => ({ w with heap := h3, sigCount := w.sigCount + 1 }, { t' with ok := true, returnedResolved := true })
+      | .indexDeleteFails => ({ w with heap := h3, sigs := bump k w.sigs }, { t' with returnedResolved := true })
+      | .ok => ({ w with heap := h3, sigs := bump k w.sigs }, { t' with ok := true, returnedResolved := true })
 
 /-- one `SignOCI` call -/
-def signOCI (i : Input) (w : World) (c : Call) : World × Trace :=
+def signOCI (i : Input) (w : World) (c : Step) : World × Trace :=
   if !optsValid c.opts then (w, {})
   else
     let arg := refArg c.ref
     let t : Trace := { resolveArg := some arg }
-    match resolve i.repo w.heap arg with
+    match resolve i.repo w.heap w.tag c.target arg with
     | none => (w, t)
-    | some (h1, resolved) =>
+    | some (h1, resolved, k) =>
       let w1 : World := { w with heap := h1, handed := w.handed ++ [(resolved, h1.read resolved)] }
       -- artifactRef != resolved digest and digest.Parse(artifactRef) succeeds
       if arg == .otherDigest then (w1, t)
@@ -324,29 +345,36 @@ def signOCI (i : Input) (w : World) (c : Call) : World × Trace :=
         let (h2, toSign, ok) := addUserMetadata h1 resolved c.md
         let w2 := { w1 with heap := h2 }
         if !ok then (w2, t)
-        else annotateAndPush i w2 { t with signed := some (h2.read toSign) } resolved
+        else annotateAndPush i w2 { t with signed := some (k, h2.read toSign) } resolved k
 
-def mkDesc (a : Art) (ann : AnnMap) : DescObs :=
-  { mediaType := a.mediaType, digest := a.digest, size := a.size, ann := ann }
+def noArt : Art := { mediaType := [], digest := [], size := 0, ann := [] }
+def artAt (i : Input) (k : Nat) : Art := i.arts.getD k noArt
 
-/-- what the harness can see of a call and of the world after it -/
-def observe (i : Input) (w : World) (t : Trace) : CallObs :=
+def mkDesc (i : Input) (p : Nat × AnnMap) : DescObs :=
+  { mediaType := (artAt i p.1).mediaType, digest := (artAt i p.1).digest, size := (artAt i p.1).size, ann := p.2 }
+
+/-- what the harness can see of a call and of the world after it (`tagBefore`: what the tag named before the call) -/
+def observe (i : Input) (tagBefore : Option Nat) (w : World) (t : Trace) : CallObs :=
   { ok := t.ok, resolveArg := t.resolveArg,
-    signed := t.signed.map (mkDesc i.art), subject := t.subject.map (mkDesc i.art), pushAnn := t.pushAnn,
+    signed := t.signed.map (mkDesc i), subject := t.subject.map (mkDesc i), pushAnn := t.pushAnn,
     returned := if t.returnedResolved then .resolved else .zero,
-    repoViewSame := w.heap.read (some env.repoAnn) == i.art.ann,
+    repoViewSame := w.tag == tagBefore && w.heap.cells.take i.arts.length == i.arts.map (·.ann),
     handedSame := w.handed.all (fun (r, snap) => w.heap.read r == snap),
-    optsSame := w.heap.read (some env.cfg) == i.pluginConfig &&
-      (w.heap.cells.drop env.metaBase).take i.calls.length == i.calls.map (·.md),
-    sigCount := w.sigCount }
+    optsSame := w.heap.read (some i.arts.length) == i.pluginConfig &&
+      (w.heap.cells.drop (i.arts.length + 1)).take i.steps.length == i.steps.map (·.md),
+    sigCounts := w.sigs }
 
-def runCalls (i : Input) : World → List Call → List CallObs
+def runSteps (i : Input) : World → List Step → List CallObs
   | _, [] => []
-  | w, c :: cs =>
-    let (w', t) := signOCI i w c
-    observe i w' t :: runCalls i w' cs
+  | w, s :: ss =>
+    match s.op with
+    | .sign =>
+      let (w', t) := signOCI i w s
+      observe i w.tag w' t :: runSteps i w' ss
+    | .tagTo => runSteps i { w with tag := some s.to } ss
+    | .untag => runSteps i { w with tag := none } ss
 
-def run (i : Input) : Obs := { calls := runCalls i (initWorld i) i.calls }
+def run (i : Input) : Obs := { calls := runSteps i (initWorld i) i.steps }
 
 /-! ### specification (over the input and the observables only) -/
 
@@ -355,47 +383,65 @@ def distinctKeys : AnnMap → Bool
   | [] => true
   | (k, _) :: r => !(r.any (fun kv => kv.1 == k)) && distinctKeys r
 
-/-- well-formedness of an input: every UserMetadata map has pairwise different keys -/
-def wf (i : Input) : Bool := i.calls.all (fun c => distinctKeys c.md)
+/-- well-formedness of an input: there is an artifact, the tag and every step name existing artifacts, and
+every UserMetadata map has pairwise different keys -/
+def wf (i : Input) : Bool :=
+  decide (0 < i.arts.length) &&
+  (match i.tag with | none => true | some k => decide (k < i.arts.length)) &&
+  i.steps.all (fun s => distinctKeys s.md && decide (s.to < i.arts.length) && decide (s.target < i.arts.length))
 
-/-- the annotations the repository shows for what the reference resolves to -/
-def resolvedAnn (i : Input) (c : Call) : AnnMap :=
+/-- the artifact the reference resolves to *now* (`tag`: what the tag names at the moment of the call) -/
+def resolvedArt (i : Input) (tag : Option Nat) (c : Step) : Option Nat :=
   match refArg c.ref with
-  | .tag => i.art.ann
-  | _ => if i.repo.plainByDigest then [] else i.art.ann
+  | .tag => tag
+  | .digest => some c.target
+  | .otherDigest => if i.repo.anyDigest then some 0 else none
+  | _ => none
+
+/-- the annotations the repository shows for artifact `k` through this kind of reference -/
+def resolvedAnn (i : Input) (c : Step) (k : Nat) : AnnMap :=
+  match refArg c.ref with
+  | .tag => (artAt i k).ann
+  | _ => if i.repo.plainByDigest then [] else (artAt i k).ann
 
 /-- resolved annotations + user metadata -/
 def merged (base md : AnnMap) : AnnMap := md.foldl (fun m kv => put kv.1 kv.2 m) base
 
-def resolvable (i : Input) (c : Call) : Bool :=
-  match refArg c.ref with
-  | .tag | .digest => true
-  | .otherDigest => i.repo.anyDigest
-  | _ => false
+def digestMismatch (c : Step) : Bool := refArg c.ref == .otherDigest
+def hasReserved (c : Step) : Bool := c.md.any (fun kv => isReserved kv.1)
+def collides (i : Input) (c : Step) (k : Nat) : Bool := c.md.any (fun kv => (look kv.1 (resolvedAnn i c k)).isSome)
 
-def digestMismatch (c : Call) : Bool := refArg c.ref == .otherDigest
-def hasReserved (c : Call) : Bool := c.md.any (fun kv => isReserved kv.1)
-def collides (i : Input) (c : Call) : Bool := c.md.any (fun kv => (look kv.1 (resolvedAnn i c)).isSome)
+/-- one of the three refusals the property names (`k`: the resolved artifact) -/
+def refused (i : Input) (c : Step) (k : Nat) : Bool := digestMismatch c || hasReserved c || collides i c k
 
-/-- one of the three refusals the property names -/
-def refused (i : Input) (c : Call) : Bool := digestMismatch c || hasReserved c || collides i c
-
-/-- everything before the signer passes -/
-def reachesSigner (i : Input) (c : Call) : Bool :=
-  optsValid c.opts && resolvable i c && !refused i c
+/-- everything before the signer passes: the artifact that is signed -/
+def reachesSigner (i : Input) (tag : Option Nat) (c : Step) : Option Nat :=
+  if optsValid c.opts then
+    match resolvedArt i tag c with
+    | some k => if refused i c k then none else some k
+    | none => none
+  else none
 
 /-- everything before the push passes -/
-def reachesPush (i : Input) (c : Call) : Bool := reachesSigner i c && i.signer.kind == .ok
+def reachesPush (i : Input) (tag : Option Nat) (c : Step) : Option Nat :=
+  if i.signer.kind == .ok then reachesSigner i tag c else none
 
-/-- does the call succeed? A function of the input and the call alone - not of the history. -/
-def expectedOk (i : Input) (c : Call) : Bool := reachesPush i c && i.repo.push == .ok
+/-- does the call succeed? A function of the input, the call and what the tag names now - not of what was signed before. -/
+def expectedOk (i : Input) (tag : Option Nat) (c : Step) : Bool := (reachesPush i tag c).isSome && i.repo.push == .ok
 
-def pushes (i : Input) (c : Call) : Bool := reachesPush i c && i.repo.push != .fails
+/-- the artifact that gets a signature -/
+def pushes (i : Input) (tag : Option Nat) (c : Step) : Option Nat :=
+  if i.repo.push != .fails then reachesPush i tag c else none
+
+def sigsAfter (i : Input) (tag : Option Nat) (c : Step) (before : List Nat) : List Nat :=
+  match pushes i tag c with
+  | some k => bump k before
+  | none => before
 
 def expectedPushAnn (i : Input) : AnnMap :=
   put Facts.c11CreatedKey (rfc3339 i.signer.time) (put Facts.c11ThumbprintKey (jsonArray i.signer.thumbs) i.signer.pluginAnn)
 
-/-- the per-call clauses; `before` = signatures attached before the call -/
+/-- the per-call clauses; `tag` = what the tag names at the call, `before` = signatures attached before the call -/
 structure CallVerdict where
   signsResolvedPlusMetadata : Bool
   subjectIsResolved : Bool
@@ -406,39 +452,51 @@ structure CallVerdict where
   succeedsIndependentOfHistory : Bool
   resolveAsked : Bool
 
-def callVerdict (i : Input) (c : Call) (before : Nat) (o : CallObs) : CallVerdict :=
+def callVerdict (i : Input) (tag : Option Nat) (c : Step) (before : List Nat) (o : CallObs) : CallVerdict :=
   { signsResolvedPlusMetadata :=
-      o.signed == (if reachesSigner i c then some (mkDesc i.art (merged (resolvedAnn i c) c.md)) else none),
+      o.signed == (reachesSigner i tag c).map (fun k => mkDesc i (k, merged (resolvedAnn i c k) c.md)),
     subjectIsResolved :=
-      o.subject == (if reachesPush i c then some (mkDesc i.art (resolvedAnn i c)) else none) &&
-      o.returned == (if pushes i c then .resolved else .zero),
+      o.subject == (reachesPush i tag c).map (fun k => mkDesc i (k, resolvedAnn i c k)) &&
+      o.returned == (if (pushes i tag c).isSome then .resolved else .zero),
     pushedAnnotationsExact :=
-      o.pushAnn == (if reachesPush i c then some (expectedPushAnn i) else none),
+      o.pushAnn == (reachesPush i tag c).map (fun _ => expectedPushAnn i),
     refusals :=
-      !(optsValid c.opts && resolvable i c && refused i c) ||
-        (!o.ok && o.signed.isNone && o.subject.isNone && o.pushAnn.isNone && o.sigCount == before),
+      (match (if optsValid c.opts then resolvedArt i tag c else none) with
+       | some k => !refused i c k
+       | none => true) ||
+        (!o.ok && o.signed.isNone && o.subject.isNone && o.pushAnn.isNone && o.sigCounts == before),
     frame := o.repoViewSame && o.handedSame && o.optsSame,
-    oneSignature := o.sigCount == before + (if pushes i c then 1 else 0) && (!o.ok || o.subject.isSome),
-    succeedsIndependentOfHistory := o.ok == expectedOk i c,
+    oneSignature := o.sigCounts == sigsAfter i tag c before && (!o.ok || o.subject.isSome),
+    succeedsIndependentOfHistory := o.ok == expectedOk i tag c,
     resolveAsked := o.resolveArg == (if optsValid c.opts then some (refArg c.ref) else none) }
 
-/-- fold a per-call clause over the sequence, threading the signature count -/
-def allCalls (i : Input) (f : CallVerdict → Bool) : List Call → Nat → List CallObs → Bool
-  | [], _, [] => true
-  | c :: cs, before, o :: os => f (callVerdict i c before o) && allCalls i f cs o.sigCount os
-  | _, _, _ => false
+/-- fold a per-call clause over the history, threading what the tag names and the signature counts -/
+def allCalls (i : Input) (f : CallVerdict → Bool) : List Step → Option Nat → List Nat → List CallObs → Bool
+  | [], _, _, [] => true
+  | [], _, _, _ :: _ => false
+  | s :: ss, tag, sigs, os =>
+    match s.op with
+    | .sign =>
+      match os with
+      | o :: os' => f (callVerdict i tag s sigs o) && allCalls i f ss tag o.sigCounts os'
+      | [] => false
+    | .tagTo => allCalls i f ss (some s.to) sigs os
+    | .untag => allCalls i f ss none sigs os
+
+def signSteps (i : Input) : List Step := i.steps.filter (fun s => s.op == .sign)
 
 def clauses (i : Input) (o : Obs) : Clauses :=
+  let z := i.arts.map (fun _ => 0)
   [ ("input_wellformed", wf i),
-    ("one_observation_per_call", o.calls.length == i.calls.length),
-    ("signs_resolved_plus_metadata", allCalls i (·.signsResolvedPlusMetadata) i.calls 0 o.calls),
-    ("subject_is_resolved_descriptor", allCalls i (·.subjectIsResolved) i.calls 0 o.calls),
-    ("pushed_annotations_exact", allCalls i (·.pushedAnnotationsExact) i.calls 0 o.calls),
-    ("refusals", allCalls i (·.refusals) i.calls 0 o.calls),
-    ("frame", allCalls i (·.frame) i.calls 0 o.calls),
-    ("one_signature_per_push", allCalls i (·.oneSignature) i.calls 0 o.calls),
-    ("succeeds_independent_of_history", allCalls i (·.succeedsIndependentOfHistory) i.calls 0 o.calls),
-    ("resolve_asked_for_reference", allCalls i (·.resolveAsked) i.calls 0 o.calls) ]
+    ("one_observation_per_call", o.calls.length == (signSteps i).length),
+    ("signs_resolved_plus_metadata", allCalls i (·.signsResolvedPlusMetadata) i.steps i.tag z o.calls),
+    ("subject_is_resolved_descriptor", allCalls i (·.subjectIsResolved) i.steps i.tag z o.calls),
+    ("pushed_annotations_exact", allCalls i (·.pushedAnnotationsExact) i.steps i.tag z o.calls),
+    ("refusals", allCalls i (·.refusals) i.steps i.tag z o.calls),
+    ("frame", allCalls i (·.frame) i.steps i.tag z o.calls),
+    ("one_signature_per_push", allCalls i (·.oneSignature) i.steps i.tag z o.calls),
+    ("succeeds_independent_of_history", allCalls i (·.succeedsIndependentOfHistory) i.steps i.tag z o.calls),
+    ("resolve_asked_for_reference", allCalls i (·.resolveAsked) i.steps i.tag z o.calls) ]
 
 def Holds (i : Input) (o : Obs) : Bool := (clauses i o).holds
 
